@@ -17,7 +17,9 @@ RULE = ("integers: ALL i8/u8 values and a boundary-directed + random sample of 1
         "with the model (non-float kinds), (2) decoded by an independent decoder in Python and compared with the value, (3) sent "
         "back through the library's own parser (round trip; strings denote the value after un-doubling quotes), floats also "
         "through Rust's str::parse; derived enums (~30 definitions generated from the seed and compiled into the harness): every "
-        "variant's response text is sent back through TryFrom<Token> and must select the same variant.  non-trivial = text longer than one byte")
+        "variant's response text is sent back through TryFrom<Token> and must select the same variant; f32: ALL 2^32 bit patterns in "
+        "the thorough tier (32 random blocks of 2^18 in the quick tier) formatted and read back inside the harness (library parser and "
+        "str::parse, bit for bit; NaN/inf sentinels; NRf syntax).  non-trivial = text longer than one byte")
 ASSUMPTIONS = ["lexical-core 0.8.5 write::<f32|f64> is not modelled: every emitted float text is validated per value (syntax, exact decode = same bits)",
                "a string containing `\"` round-trips through the zero-copy parser with the quotes still doubled (DESIGN 7.2)"]
 MISMATCH_WHY = "emitted response text / round trip differs from the proved model (C09)"
@@ -89,7 +91,16 @@ def generate(rng, tier):
         for b in list(bits):
             out.append(mk("%s:%0*x" % (ty, w, b)))
             out.append(mk("%s:%0*x" % (ty, w, b | (1 << (eb + mb)))))      # negative twin
+    # f32: the property's own quantifier "all 2^32 bit patterns" — swept inside the harness (format, read back through the
+    # library's parser and through str::parse, bit for bit; sentinels for NaN/inf; NRf syntax); implementation only
+    if big:
+        out += [sweep(k << 24, 1 << 24) for k in range(256)]
+    else:
+        out += [sweep(rng.randrange(1 << 14) << 18, 1 << 18) for _ in range(32)]
     return out + enum_cases()
+
+
+def sweep(start, count): return {"line": "f32sweep %08x %d" % (start, count), "item": "sweep:"}
 
 
 def to_bits(v, ty):
@@ -101,7 +112,10 @@ def to_bits(v, ty):
 
 
 def harness_line(c): return c["line"]
-def case_of_line(l): return {"line": l, "item": "enum:"} if l.startswith("enumv ") else mk(l.split(" ", 1)[1])
+def case_of_line(l):
+    if l.startswith("enumv "): return {"line": l, "item": "enum:"}
+    if l.startswith("f32sweep "): return {"line": l, "item": "sweep:"}
+    return mk(l.split(" ", 1)[1])
 
 
 def coq_item(item):
@@ -123,6 +137,7 @@ def coq_item(item):
 
 def coq_term(c):
     if c["line"].startswith("enumv "): return C20.coq_term(c)
+    if c["line"].startswith("f32sweep "): return '"SKIP"'
     d, back = coq_item(c["item"])
     if d is None: return '"SKIP"'
     return "run_fmt %s %s" % (d, "None" if back is None else "(Some (%s))" % back)
@@ -186,6 +201,7 @@ def impl_oracle(c, r):
     if r is None: return "no result from harness"
     if r.startswith(("PANIC", "CRASH", "NOT-RUN", "HANG")): return "formatting panicked / died: " + r[:100]
     if c["line"].startswith("enumv "): return C20.impl_oracle(c, r)
+    if c["line"].startswith("f32sweep "): return None if r == "OK" else "f32 response does not denote the value formatted: " + r
     f = r.split(" ")
     item = c["item"]; k, v = item.split(":", 1)
     if f[0].startswith("E"):
@@ -226,4 +242,6 @@ def distribution(cases, impl):
         k = {"H": "radix", "Q": "radix", "B": "radix", "s": "string", "S": "str_block", "a": "block", "c": "character", "x": "expression", "E": "error_item", "l": "list"}.get(k, k)
         d[k] = d.get(k, 0) + 1
     d["format_errors"] = sum(1 for r in impl if r and r.startswith("E"))
+    d["f32_patterns_swept_in_harness"] = sum(int(c["line"].split(" ")[2]) for c in cases if c["line"].startswith("f32sweep "))
+    d.pop("sweep", None)
     return d
